@@ -88,10 +88,31 @@ static std::string run(const hx::Sexp &e)
         if (i >= n) { auto u = Units::create("missing"); u->addUnit("nowhere"); model->addUnits(u); return u; }
         return us[i];
     };
+    // two connected variables of sibling components, to ask the validator about a pair of units of the model
+    auto vc1 = Component::create("vc1"), vc2 = Component::create("vc2");
+    auto vv1 = Variable::create("vv1"), vv2 = Variable::create("vv2");
+    vv1->setInterfaceType("public"); vv2->setInterfaceType("public");
+    vc1->addVariable(vv1); vc2->addVariable(vv2);
+    model->addComponent(vc1); model->addComponent(vc2);
+    Variable::addEquivalence(vv1, vv2);
+    auto validator = Validator::create();
     std::ostringstream out;
     out << "(r";
     for (auto *q : qs) {
         auto a = operand((*q)[1]), b = operand((*q)[2]);
+        // the validator's verdict on connected variables in these units: 1 = "non-matching units" reported, 0 = not, - = not asked
+        std::string verdict = "-";
+        if ((*q)[1].head() == "u" && (*q)[2].head() == "u" && a != nullptr && b != nullptr && a->isDefined() && b->isDefined()
+            && size_t(atol((*q)[1][1].atom.c_str())) < n && size_t(atol((*q)[2][1].atom.c_str())) < n) {
+            vv1->setUnits(a); vv2->setUnits(b);
+            validator->validateModel(model);
+            verdict = "0";
+            for (size_t k = 0; k < validator->issueCount(); ++k) {
+                if (validator->issue(k)->referenceRule() == Issue::ReferenceRule::MAP_VARIABLES_ELEMENT
+                    && validator->issue(k)->description().find("non-matching units") != std::string::npos) verdict = "1";
+            }
+            vv1->removeUnits(); vv2->removeUnits();
+        }
         bool compat = Units::compatible(a, b);
         double sf = Units::scalingFactor(a, b);
         double sfRev = Units::scalingFactor(b, a);
@@ -115,7 +136,7 @@ static std::string run(const hx::Sexp &e)
         if (oka) { snprintf(nb, sizeof nb, "%.17g", ma); out << nb; } else out << "none";
         out << " ";
         if (okb) { snprintf(nb, sizeof nb, "%.17g", mb); out << nb; } else out << "none";
-        out << " " << (eq ? 1 : 0) << " " << (consistent ? 1 : 0) << ")";
+        out << " " << (eq ? 1 : 0) << " " << (consistent ? 1 : 0) << " " << verdict << ")";
     }
     out << ")";
     return out.str();
